@@ -7,8 +7,52 @@ import server_dispatch, rust_abi
 
 PROP = 'C03'
 
-def notify_cases(bindir):
-    return []
+def notify_check(rng, bindir, findings, broken):
+    """the three notification builders: model (Model/Notify.v) vs implementation, and the kernel-side reading (Spec/Notify.v)"""
+    cases = []
+    for i in range(60):
+        k = rng.random()
+        if k < 0.5:
+            name = S.gen_name(rng, 60)
+            n = ('entry', S.boundary(rng, 8), name); tot = 16 + 16 + len(name) + 1
+            tok = 'entry:%d:%s' % (n[1], name.hex()); coq = '(NInvalEntry %d %s)' % (n[1], hexN(name))
+        elif k < 0.9:
+            n = ('inode', S.boundary(rng, 8), S.boundary(rng, 8), S.boundary(rng, 8)); tot = 40
+            tok = 'inode:%d:%d:%d' % n[1:]; coq = '(NInvalInode %d %d %d)' % n[1:]
+        else:
+            n = ('resend',); tot = 16; tok = 'resend'; coq = 'NResend'
+        cap = rng.choice([tot, tot, tot + 1, tot - 1, 4096, 15, 16, 32, 0])
+        cases.append({'id': 500000 + i, 'cap': max(cap, 0), 'tok': tok, 'coq': coq, 'tot': tot})
+    inp = ''.join('id=%d cap=%d notify=%s\n' % (c['id'], c['cap'], c['tok']) for c in cases)
+    rc, out = run([os.path.join(bindir, 'codec')], input=inp, timeout=120)
+    obs = {}
+    for line in out.split('\n'):
+        if line.startswith('id='):
+            o = S.parse_obs(line); obs[o['id']] = o
+    exprs = []; meta = []
+    for c in cases:
+        o = obs.get(c['id'])
+        if o is None: broken.append({'kind': 'harness-run', 'log': out[-800:]}); continue
+        if o['panic'] or not o['canary']:
+            findings.append({'what': 'notification builder panicked or wrote outside its buffer', 'sig': {'notify': c['tok'].split(':')[0]}, 'input': c, 'observed': o['res']})
+        failed = not o['res'].startswith('ok')
+        exprs.append('(notify_obs_eqb %d %s %s [%s])' % (c['cap'], c['coq'], 'true' if failed else 'false', '; '.join(hexN(p) for p in o['packets']))); meta.append(('model', c, o))
+        if c['cap'] >= c['tot']:
+            if len(o['packets']) != 1:
+                findings.append({'what': 'notification %s: %d write calls instead of one' % (c['tok'].split(':')[0], len(o['packets'])), 'sig': {'notify': c['tok'].split(':')[0]}, 'input': c})
+            else:
+                exprs.append('(notify_ok %s %s)' % (c['coq'], hexN(o['packets'][0]))); meta.append(('spec', c, o))
+    hdr = S.SPEC_HEADER.replace('Spec.Replies.', 'Spec.Replies Model.Notify Spec.Notify.')
+    ok2, out2 = coq_make(['Spec/Notify.vo'])
+    fails, errs = coq_check_cases('c03notify', hdr, exprs, shard=80)
+    if errs or not ok2: broken.append({'kind': 'spec-eval', 'name': 'notify', 'log': (errs or [out2[-800:]])[0]})
+    for i in fails:
+        kind, c, o = meta[i]
+        if kind == 'spec':
+            findings.append({'what': 'notification %s does not carry the given arguments (kernel layout)' % c['tok'].split(':')[0], 'sig': {'notify': c['tok'].split(':')[0]}, 'input': c, 'packet': o['packets'][0].hex()})
+        else:
+            broken.append({'kind': 'correspondence', 'name': 'Model/Notify.v run_notify vs Server::notify_*', 'case': c, 'observed': {'res': o['res'], 'packets': [p.hex() for p in o['packets']]}})
+    return len(cases)
 
 def run_check(tier, seed):
     ev = Evidence(PROP, tier, seed)
@@ -63,7 +107,9 @@ def run_check(tier, seed):
     for i in bad_idx:
         if cases[i]['id'] not in failed_ids:
             broken.append({'kind': 'correspondence', 'name': 'Model/Server.v handle vs Server::handle_message', 'case': S.case_json(cases[i], obs[cases[i]['id']])})
-    ev.cov['evaluations'] = len(obs); ev.cov['distinct_nontrivial'] = len(nontriv)
+    nn = notify_check(rng, bindir, findings, broken)
+    ev.cov['notification_cases'] = nn
+    ev.cov['evaluations'] = len(obs) + nn; ev.cov['distinct_nontrivial'] = len(nontriv)
     ev.cov['spec_evaluations'] = len(exprs); ev.cov['model_vs_impl_disagreements'] = len(bad_idx)
     ev.cov['rule'] = ('well-formed requests of every opcode x scripted filesystem results of every kind (entries/attrs with boundary values in every field, handles present/absent, '
                       'read payloads, xattr values/sizes, locks, statfs, directory listings with names of every length residue mod 8 and requested sizes around entry boundaries, '
